@@ -13,6 +13,8 @@ C14.e destination walk: the walk over the destination does not follow symlinks; 
   with the component-wise Path ordering (the order WalkDir::sort_by_file_name and the tree streamer produce).
 C14.f reading back from a present file: a merged read request keeps `from_file` only of the entry whose `from_file`
   was tested to be None.
+C14.h an existing destination file is considered for reuse only if it is a regular file whose length equals the
+  snapshot's size exactly (get_matching_file); a verified file is never truncated afterwards, so `>=` would keep a tail.
 C14.g R-ACCUM: file offsets advance by each blob's length (RestorePlan::add_file).
 """
 import re
@@ -46,7 +48,8 @@ def run(ctx, rep):
     prog = ctx.prog
     for r, tx in (("C14.a", "node names are validated before they become paths"), ("C14.b", "destination entries are removed only with delete && !dry_run"),
                   ("C14.c", "write-opens do not follow pre-existing symlinks"), ("C14.d", "sparse holes only over known-zero ranges"),
-                  ("C14.e", "destination walk: no link following, component-wise path order"), ("C14.f", "merged read requests keep a tested from_file"), ("C14.g", "file offsets advance by blob length")):
+                  ("C14.e", "destination walk: no link following, component-wise path order"), ("C14.f", "merged read requests keep a tested from_file"), ("C14.g", "file offsets advance by blob length"),
+                  ("C14.h", "existing files are reused only on exact size match")):
         rep.rule(r, tx)
     # ---- C14.a -------------------------------------------------------------------------------------
     NS = prog.find1(r"^<rustic_core::blob::tree::NodeStreamer<'_, BE, I> as std::iter::Iterator>::next$")
@@ -163,6 +166,30 @@ def run(ctx, rep):
                 okc = C.dominates(CO, bb, aggs[0][0])
     rep.check("C14.f", "coalesce-from_file", okc, where=CO.loc(), what="the merged request keeps the from_file of the entry that was tested to have none" if okc else
               "PackInfo::coalesce tests one entry's from_file but keeps the other's: blobs of the merged request are filled from a present file that does not contain them")
+    # ---- C14.h -------------------------------------------------------------------------------------
+    GM = prog.find1(r"^rustic_core::backend::local_destination::LocalDestination::get_matching_file$")
+    fam = [GM] + prog.closures_of(GM)
+    opens = [(b, bb) for b in fam for bb, t in b.calls() if "callee" in t and re.search(r"^std::fs::(File::open|OpenOptions::open)$", callee(t))]
+    rep.require("C14.h", "open-site", len(opens) >= 1, where=GM.loc(), what="get_matching_file opens the existing destination file for reading")
+    for n, (b, bb) in enumerate(opens, 1):
+        eq_size = is_file = False
+        for (sw, succ) in C.transitive_control_deps(b, bb):
+            e = flow.expr_of(b, b.term(sw)["discr"])
+            neg = False
+            while e[0] == "un" and e[1] == "Not":
+                neg = not neg
+                e = e[2]
+            v = [vv for vv, x in b.term(sw)["targets"] if x == succ]
+            took_true = (not v or v[0] != "0") != neg
+            if e[0] == "bin" and e[1] in ("Eq", "Ne") and "Metadata::len" in repr(e):
+                # the other operand is the requested size (closure capture / parameter)
+                if (e[1] == "Eq") == took_true:
+                    eq_size = True
+            if e[0] == "call" and re.search(r"Metadata::is_file$|FileType::is_file$", e[1]) and took_true:
+                is_file = True
+        rep.check("C14.h", f"reuse-only-exact-size/{n}", eq_size, where=where(b, bb), what="an existing destination file is offered for block reuse only if its length EQUALS the snapshot's file size" if eq_size else
+                  "an existing destination file is offered for reuse without an exact length match: a longer file whose prefix matches is accepted as restored and keeps its tail")
+        rep.check("C14.h", f"reuse-only-regular-file/{n}", is_file, where=where(b, bb), what="... and only if it is a regular file (symlink_metadata().is_file())")
     # ---- C14.g -------------------------------------------------------------------------------------
     AF = prog.find1(r"^rustic_core::commands::restore::RestorePlan::add_file$")
     adv = []
